@@ -201,21 +201,25 @@ def importEntries : KVs → KVs → Out KVs
     | some c => if veq a c then importEntries rest to else .err "conflict"
     | none => importEntries rest (to ++ [(name, a)])
 
+/-- the section of the including model the resources go to: absent or null = empty, a mapping, or neither -/
+def targetSection (key : String) (target : KVs) : Option KVs :=
+  match lookup key target with
+  | none => some []
+  | some .null => some []
+  | some (.map to) => some to
+  | some _ => none
+
 def importResource (source target : KVs) (key : String) : Out KVs :=
   match lookup key source with
   | none => .ok target
   | some .null => .ok target
   | some frm =>
-    match lookup key target with
-    | some (.map to) =>
-      (match frm with
-       | .map f => (importEntries f to).bind fun to' => .ok (insert key (.map to') target)
-       | _ => .panic "importResource:from.(map[string]any)")
-    | none =>
-      (match frm with
-       | .map f => (importEntries f []).bind fun to' => .ok (insert key (.map to') target)
-       | _ => .panic "importResource:from.(map[string]any)")
-    | some _ => .panic "importResource:v.(map[string]any)"
+    match targetSection key target with
+    | none => .err "notMapping"
+    | some to =>
+      match frm with
+      | .map f => (importEntries f to).bind fun to' => .ok (insert key (.map to') target)
+      | _ => .panic "importResource:from.(map[string]any)"
 
 def resourceKinds : List String := ["services", "volumes", "networks", "secrets", "configs"]
 
@@ -267,15 +271,16 @@ structure Plan where
 deriving Repr, BEq, DecidableEq
 
 /-- the loop over `r.Path`: resolve every path with the local loader; the first one defines the project
-directory and is the only one tested against the `included` chain -/
+directory; each one is tested against the `included` chain -/
 def plan (W : World) (wd L : String) (chain : List String) (r : IncCfg) : Out Plan :=
   match r.path with
   | [] => .ok ⟨"", r.projectDirectory, []⟩
   | p0 :: rest =>
     let path0 := localAbs L p0
     let rp := resolveFirst W wd L r.projectDirectory path0
-    if path0 ∈ chain then .err "cycle"
-    else .ok ⟨rp.1, rp.2, path0 :: rest.map (localAbs L)⟩
+    let paths := path0 :: rest.map (localAbs L)
+    if paths.any (fun p => chain.contains p) then .err "cycle"
+    else .ok ⟨rp.1, rp.2, paths⟩
 
 def envFilesExplicit (W : World) (wd : String) : List String → Out (List String)
   | [] => .ok []
